@@ -220,7 +220,7 @@ def check(col, prog, tier, profile, fixture=None):
     col.rule("A1" + sfx, "determinism: no static / clock / IO / unsafe reachable from the drawing API", floor=50)
     col.rule("A2" + sfx, "shuffle writes only through swap; i in 1..len; partner next(0..=i)", floor=3)
     col.rule("A3" + sfx, "integer draws lie in the range for every raw output; no overflow; value-preserving casts", floor=50)
-    col.rule("A4" + sfx, "float draw is start or a value with the fact x < end", floor=2)
+    col.rule("A4" + sfx, "float draw is start or a value with the fact x < end", floor=1)
     col.rule("A5" + sfx, "generator output is not a T-function of its state (else small-range draws are periodic)", floor=1)
 
     impls = {}  # (range kind, type) -> body
